@@ -55,15 +55,36 @@ def build_default(f, fidx):
     return None
 
 
+def u8_constants(fns):
+    out = {0}
+
+    def walk(x):
+        if isinstance(x, dict):
+            c = x.get("const")
+            if isinstance(c, dict) and c.get("ty") == "u8" and isinstance(c.get("bits"), int):
+                out.add(c["bits"])
+            for v in x.values():
+                walk(v)
+        elif isinstance(x, list):
+            for v in x:
+                walk(v)
+    for f in fns:
+        walk(f["blocks"])
+    return out
+
+
 def check_builder_defaults(run, F):
-    """R6: a builder keeps a flags byte as `Option<[u8; 1]>` and `build()` substitutes a documented default when no setter
-    touched it.  Every setter that updates the byte must start from that same default: calling it on an untouched builder
-    has to give what calling it on a builder holding `Some([default])` gives - otherwise the byte on the wire depends on
+    """R6: a builder keeps a flags byte as `Option<[u8; 1]>`; a setter that finds it unset substitutes a default before
+    changing its own bits, and so does `build()`.  All of them must mean the same default: there is one value D such that
+    every setter, evaluated on an untouched builder, leaves the byte it leaves on a builder holding `Some([D])` (and D is
+    the constant `build()` substitutes, where that can be read off its body).  Otherwise the byte on the wire depends on
     the order in which the application called the setters (password() before user_name() clearing Clean Session)."""
     import explore
-    r6 = run.rule("C03-R6", "builder setters of a defaulted flags byte start from build()'s default", floor=12)
+    r6 = run.rule("C03-R6", "builder setters of a defaulted flags byte agree on one default (build()'s)", floor=4)
     OPT = "std::option::Option"
     n = 0
+    inl = lambda ex, callee, info: callee.get("kind") == "Closure" or explore.small_private_helper(callee) or \
+        (callee.get("kind") == "AssocFn" and not callee.get("pub") and "Builder" in (callee.get("impl_self") or "") and len(callee["blocks"]) <= 40)
     for bpath, adt in sorted(F.adts.items()):
         if not (bpath.startswith("mqtt::packet::") and bpath.split("<")[0].endswith("Builder") and adt.get("kind") == "struct"):
             continue
@@ -75,53 +96,65 @@ def check_builder_defaults(run, F):
         if not build:
             continue
         for fld in flds:
-            d = build_default(build[0], fld["i"])
-            if d is None:
-                continue          # build() does not default this field (it is required, or computed)
-            for m in sorted(meths, key=lambda f: f["path"]):
-                if m.get("name") in ("build", "validate", "new", "default") or not m["locals"][1].split("<")[0].endswith("Builder"):
-                    continue          # (setters take the builder by value)
-                outs = []
+            d_build = build_default(build[0], fld["i"])
+            cands = sorted(u8_constants(meths)) if d_build is None else [d_build]
+            setters = [m for m in sorted(meths, key=lambda f: f["path"])
+                       if m.get("pub") and m.get("name") not in ("build", "validate", "new", "default") and m["locals"][1].split("<")[0].endswith("Builder")]
+
+            def result(m, init):
+                def setup(ex, st, fr):
+                    st.heap[(fr.root(1), (("f", fld["i"], fld["name"]),))] = init
+                ex = explore.Explorer(F, inline_pred=inl)
+                res = set()
                 wrote = False
-                for init in (("agg", OPT, "None", ()), ("agg", OPT, "Some", (("arr", (("c", d, "u8"),)),))):
-                    def setup(ex, st, fr, init=init):
-                        st.heap[(fr.root(1), (("f", fld["i"], fld["name"]),))] = init
-                    ex = explore.Explorer(F)
-                    res = set()
-                    try:
-                        ps = ex.run(m["path"], setup=setup)
-                    except explore.ExploreError:
-                        ps = []
-                        res.add("?")
-                    for p in ps:
-                        if p.kind != "return":
-                            continue
-                        work = [conn.expand_all(ex.interned_rev, p.ret)] if p.ret else []
-                        val = None
-                        while work:
-                            x = work.pop()
-                            if isinstance(x, tuple) and x and x[0] == "agg":
-                                if x[1].split("<")[0] == bpath.split("<")[0] and len(x[3]) > fld["i"]:
-                                    val = x[3][fld["i"]]
-                                    break
-                                work.extend(x[3])
-                        if val is not None:
-                            if val != init:
-                                wrote = True
-                            res.add(conn.short(val)[:120])
-                    outs.append(res)
-                if not wrote:
-                    continue          # the method does not touch this byte
-                n += 1
-                key = "%s::%s/%s" % (bpath.replace("mqtt::packet::", ""), m["name"], fld["name"])
-                if outs[0] != outs[1] or "?" in outs[0]:
-                    r6.violation(key, "%s::%s on an untouched builder leaves %s = %s, on a builder holding build()'s default [%d] it leaves %s: the setter starts "
-                                 "from another default than build() (the encoded byte depends on the order of the setter calls)"
-                                 % (bpath.split("::")[-1], m["name"], fld["name"], sorted(outs[0]), d, sorted(outs[1])), site="%s:%s" % (m["file"], m["line"]))
-                else:
-                    r6.ok(key, {"default": d, "result": sorted(outs[0])})
+                try:
+                    ps = ex.run(m["path"], setup=setup)
+                except explore.ExploreError:
+                    return {"?"}, True
+                for p in ps:
+                    if p.kind != "return":
+                        continue
+                    work = [conn.expand_all(ex.interned_rev, p.ret)] if p.ret else []
+                    while work:
+                        x = work.pop()
+                        if isinstance(x, tuple) and x and x[0] == "agg":
+                            if x[1].split("<")[0] == bpath.split("<")[0] and len(x[3]) > fld["i"]:
+                                if x[3][fld["i"]] != init:
+                                    wrote = True
+                                res.add(conn.short(x[3][fld["i"]])[:120])
+                                break
+                            work.extend(x[3])
+                return res, wrote
+            none = ("agg", OPT, "None", ())
+            on_none = {}
+            for m in setters:
+                r0, w0 = result(m, none)
+                if w0:
+                    on_none[m["path"]] = (m, r0)
+            if not on_none:
+                continue          # no setter touches this byte
+            n += 1
+            key = "%s/%s" % (bpath.replace("mqtt::packet::", ""), fld["name"])
+            agree = None
+            worst = None
+            for d in cands:
+                some = ("agg", OPT, "Some", (("arr", (("c", d, "u8"),)),))
+                bad = [(m["name"], sorted(r0), sorted(result(m, some)[0])) for (m, r0) in on_none.values() if "?" in r0 or result(m, some)[0] != r0]
+                if not bad:
+                    agree = d
+                    break
+                if worst is None or len(bad) < len(worst[1]):
+                    worst = (d, bad)
+            if agree is not None:
+                r6.ok(key, {"default": agree, "from_build": d_build is not None, "setters": sorted(m["name"] for m, _ in on_none.values())})
+            else:
+                d, bad = worst
+                r6.violation(key, "%s: the setters of %s do not start from one default: taking %s [%d], %s on an untouched builder leaves %s but on a builder holding "
+                             "[%d] it leaves %s (the encoded byte depends on the order of the setter calls)"
+                             % (bpath.split("::")[-1], fld["name"], "build()'s default" if d_build is not None else "the closest candidate", d,
+                                bad[0][0], bad[0][1], d, bad[0][2]), site="%s:%s" % (build[0]["file"], build[0]["line"]))
     if n == 0:
-        r6.violation("anchor", "no builder setter of a defaulted flags byte found (anchor lost)")
+        r6.violation("anchor", "no builder with a defaulted flags byte found (anchor lost)")
 
 
 def only_first_byte_used(f, call):
